@@ -17,6 +17,7 @@ pub mod c15;
 pub mod c16;
 pub mod c17;
 pub mod c18;
+pub mod c19;
 pub mod sweep;
 
 use crate::run::{Acc, Ctx};
@@ -60,6 +61,7 @@ registry! {
     "C16" => c16,
     "C17" => c17,
     "C18" => c18,
+    "C19" => c19,
 }
 
 use crate::mon::Mon;
